@@ -1982,3 +1982,115 @@ def ambient_decimal_context(ctx, props):
             rec.add('RoundTrip', props, nt=True, label='decimal-context', **actions.roundtrip(h, 1))
             rec.add('RoundTrip', props, nt=True, label='decimal-context', **actions.roundtrip(
                 commands.Queue.Declare(queue='q', arguments={'x-price': vals[1]}), 1))
+
+
+def conn_sessions(ctx, props):
+    """S2C: conversations generated by TLC from Conn.tla are spoken with real frames: each scripted frame is built and
+    marshalled by pamqp, the two directions travel as byte streams cut at random places, the receiving side decodes with
+    frame.unmarshal and reports ONLY what the decoder handed it (channel, type of object, .name, .synchronous,
+    .valid_responses, frame_max / channel_max, body_size, len(body), bytes consumed)."""
+    import json as _json
+    from pamqp import body, commands, exceptions, frame, header, heartbeat
+    from abstraction import class_by_name
+    rec, rng = ctx.rec, ctx.rng
+    path = ctx.gen.get('conversations')
+    if not path:
+        return
+    convs = [_json.loads(l)['conv'] for l in open(path)]
+    byname = {sm[0]: sm for sm in framegen.METHODS}
+
+    def build(e):
+        k = e['kind']
+        if k == 'proto':
+            return header.ProtocolHeader(0, 9, 1)
+        if k == 'heartbeat':
+            return heartbeat.Heartbeat()
+        if k == 'header':
+            h = framegen.rand_header(rng, rng.getrandbits(13) & rng.getrandbits(13))
+            h.body_size = e['size']
+            try:
+                if len(frame.marshal(h, 1)) <= 4000:
+                    return h
+            except Exception:  # noqa
+                pass
+            return header.ContentHeader(0, e['size'], None)
+        if k == 'body':
+            chunk = bytes(rng.getrandbits(8) for _ in range(min(e['size'], 512)))
+            return body.ContentBody((chunk * (e['size'] // 512 + 1))[:e['size']])
+        name = e['name']
+        if name in ('Connection.Tune', 'Connection.TuneOk'):
+            return class_by_name(name)(channel_max=e['cm'], frame_max=e['fm'], heartbeat=rng.choice([0, 60, 580]))
+        for attempt in range(6):
+            f = framegen.rand_method(rng, byname[name])
+            try:                      # (the generator also produces arguments the encoder must refuse)
+                if len(frame.marshal(f, 1)) <= 4000:
+                    return f
+            except Exception:  # noqa
+                pass
+        return class_by_name(name)()
+
+    for ci, conv in enumerate(convs):
+        if not mine(ctx, ci):
+            continue
+        rec.add('ConnReset', props)
+        wire = {'c': b'', 's': b''}       # bytes written by each side, not yet delivered
+        buf = {'c': b'', 's': b''}        # receive buffer of the OTHER side, per sending direction
+        queue = {'c': [], 's': []}        # scripted frames in flight per direction
+
+        def deliver(d, everything):
+            while wire[d]:
+                k = len(wire[d]) if (everything and rng.random() < 0.4) else rng.randint(1, max(1, min(len(wire[d]), rng.choice([1, 7, 8, 50, 5000, 200000]))))
+                buf[d] += wire[d][:k]
+                wire[d] = wire[d][k:]
+                while buf[d]:
+                    try:
+                        n, ch, f = frame.unmarshal(buf[d])
+                    except exceptions.UnmarshalingException:
+                        break
+                    want, mlen = queue[d].pop(0) if queue[d] else ({'kind': 'none', 'name': '', 'size': 0, 'ch': -1, 'fm': 0, 'cm': 0, 'dir': d}, -1)
+                    kind = {'ProtocolHeader': 'proto', 'Heartbeat': 'heartbeat', 'ContentHeader': 'header',
+                            'ContentBody': 'body'}.get(type(f).__name__, 'method')
+                    ev = {'dir': d, 'ch': as_int(ch), 'kind': kind, 'name': '', 'size': 0, 'wire': as_int(n), 'fm': 0, 'cm': 0,
+                          'sync': False, 'resp': [], 'want': want, 'mlen': mlen}
+                    if kind == 'method':
+                        ev['name'] = str(getattr(f, 'name', '?'))
+                        ev['sync'] = bool(getattr(f, 'synchronous', False))
+                        ev['resp'] = [str(x) for x in getattr(f, 'valid_responses', [])]
+                        if ev['name'] in ('Connection.Tune', 'Connection.TuneOk'):
+                            ev['fm'], ev['cm'] = as_int(f.frame_max), as_int(f.channel_max)
+                    elif kind == 'header':
+                        ev['size'] = as_int(f.body_size)
+                    elif kind == 'body':
+                        ev['size'] = as_int(len(f.value))
+                    rec.add('ConnFrame', props, nt=True, **ev)
+                    buf[d] = buf[d][n:]
+                if not everything and rng.random() < 0.5:
+                    return
+
+        for i, e in enumerate(conv):
+            d = e['dir']
+            other = 'c' if d == 's' else 's'
+            deliver(other, True)          # what the peer sent before is received before this side speaks (causality)
+            f = build(e)
+            b = frame.marshal(f, e['ch'])
+            wire[d] += b
+            queue[d].append(({k: e[k] for k in ('dir', 'ch', 'kind', 'name', 'size', 'fm', 'cm')}, len(b)))
+            nxt = conv[i + 1] if i + 1 < len(conv) else None
+            deliver(d, nxt is None or nxt['dir'] != d or rng.random() < 0.5)
+        deliver('c', True)
+        deliver('s', True)
+        rec.add('ConnQuiesce', props, nt=True, left=len(buf['c']) + len(buf['s']) + len(wire['c']) + len(wire['s']),
+                inflight=len(queue['c']) + len(queue['s']))
+
+
+def _with_conn(name):
+    inner = DRIVERS[name]
+
+    def run(ctx):
+        inner(ctx)
+        conn_sessions(ctx, [name])
+    DRIVERS[name] = run
+
+
+for _p in ('C06', 'C14', 'C18', 'C20'):
+    _with_conn(_p)
